@@ -181,6 +181,11 @@ func (i *IndexSnapshotTermFieldReader) Advance(ID index.IndexInternalID, preAllo
 			}
 		}
 	}
+	if len(i.snapshot.offsets) == 0 {
+		// a snapshot without segments (e.g. every document was deleted)
+		// has no postings; the lookup below would index offsets[-1]
+		return nil, nil
+	}
 	num := ID.Value()
 	segIndex, ldocNum := i.snapshot.segmentIndexAndLocalDocNumFromGlobal(num)
 	if segIndex >= len(i.snapshot.segment) {
